@@ -86,7 +86,7 @@ func propTable() map[string]PropSpec {
 			"quick":    "one PES packet: stream id symbolic (with optional header) / 0xBE / 0xBF; PTS_DTS_flags in {00,10,11} x all 2^6 flag subsets with extension subsets {none, all}, and all 2^5 extension subsets for flag sets {ext only, all, all but CRC}; extension-2 length in {0,2}; header stuffing in {0,5}; payload 5 bytes; PES_packet_length 0/exact; bounds harness: shorter by 1..7, longer by {1,2,300}, ending inside the header; all field values symbolic (timestamps 2^33, ESCR 2^42, ES rate 2^22, all 256 trick bytes, CRC 2^16); Duration(): all base<2^33, ext<2^9",
 			"thorough": "full cross product of flag subsets and extension subsets; extension-2 length in {0,1,2,64,127}, header stuffing in {0,1,5,32}, bounds payload 12 bytes",
 		},
-		Outside: "PTS_DTS_flags '01' (forbidden by ISO); pack_header contents (pack_field_length > 0): the library stores only the length byte; writer: previous_PES_packet_CRC and pack header are not supported by the library and not claimed",
+		Outside:     "PTS_DTS_flags '01' (forbidden by ISO); pack_header contents (pack_field_length > 0): the library stores only the length byte; writer: previous_PES_packet_CRC and pack header are not supported by the library and not claimed",
 		Assumptions: []string{"Duration() is decided by cvc5 --solve-bv-as-int=sum (64-bit multiply/divide by constants)"},
 	}
 	c15 := func(thorough bool) []TaskSpec {
@@ -236,7 +236,7 @@ func propTable() map[string]PropSpec {
 		if thorough {
 			hdrs = []int64{0, 1, 2}
 		}
-		for af := int64(0); af <= 4; af++ {
+		for af := int64(0); af <= 8; af++ {
 			for _, h := range hdrs {
 				for l := int64(0); l < 18; l++ {
 					for prior := int64(0); prior <= 1; prior++ {
@@ -284,7 +284,7 @@ func propTable() map[string]PropSpec {
 	t["C01"] = PropSpec{ID: "C01", Quick: mux(false, []string{"C01.", "C12.data"}), Thorough: mux(true, []string{"C01.", "C12.data"}), Bounds: muxBounds, Outside: muxOutside, Assumptions: muxAssume}
 	// ---- demuxer properties ----
 	c02 := func(th bool) []TaskSpec {
-		pes := [][]int64{{1, 1, 0}, {10, 1, 0}, {40, 0, 0}, {200, 1, 1}, {400, 0, 1}}
+		pes := [][]int64{{0, 1, 0}, {0, 0, 0}, {1, 1, 0}, {10, 1, 0}, {40, 0, 0}, {200, 1, 1}, {400, 0, 1}}
 		psi := [][]int64{{1, 1, 0, 0}, {1, 2, 1, 0}, {1, 3, 4, 2}, {0, 1, 0, 0}, {0, 2, 0, 0}, {0, 3, 1, 3}}
 		if th {
 			pes = append(pes, [][]int64{{60, 1, 0}, {60, 0, 0}, {170, 1, 0}, {190, 0, 1}, {552, 1, 1}}...)
@@ -299,7 +299,7 @@ func propTable() map[string]PropSpec {
 	}
 	t["C02"] = PropSpec{ID: "C02", Quick: c02(false), Thorough: c02(true),
 		Bounds: map[string]string{
-			"quick":    "PES units (payload 1/10/40 bytes: every split point incl. 1-byte first/last chunks; 200/400 bytes over 2-3 packets with first chunk in {1,2,9,183,184}), bounded and unbounded PES_packet_length, followed by a second unit, symbolic PID/counter/payload/PTS; PSI units of 1..3 sections on the PAT PID (early delivery) and the SDT PID, pointer_field {0,1,4} with arbitrary filler, trailing 0xFF {0,2,3} or AF stuffing, every split point that keeps each section start in the first packet (ISO 13818-1 2.4.4); PAT->PMT, two PES units and a two-section SDT unit on 4 PIDs in all 210 order-preserving interleavings, with the no-read-ahead check on the reader position",
+			"quick":    "PES units (payload 0/1/10/40 bytes: every split point incl. 1-byte first/last chunks; 200/400 bytes over 2-3 packets with first chunk in {1,2,9,183,184}), bounded and unbounded PES_packet_length, followed by a second unit, symbolic PID/counter/payload/PTS; PSI units of 1..3 sections on the PAT PID (early delivery) and the SDT PID, pointer_field {0,1,4} with arbitrary filler, trailing 0xFF {0,2,3} or AF stuffing, every split point that keeps each section start in the first packet (ISO 13818-1 2.4.4); PAT->PMT, two PES units and a two-section SDT unit on 4 PIDs in all 210 order-preserving interleavings, with the no-read-ahead check on the reader position",
 			"thorough": "more payload sizes (up to 552 bytes / 4 packets) and section counts up to 4",
 		},
 		Outside: "more than 4 PIDs; units longer than 4 packets; PSI layouts in which a section starts in a continuation packet or the previous section's tail sits in the pointer area (outside the property's reference multiplexer, observation O1 in DESIGN.md)"}
@@ -310,7 +310,7 @@ func propTable() map[string]PropSpec {
 		}
 		return []TaskSpec{
 			{Harness: "HarnessC06Dup", ArgSets: [][]int64{{0}, {1}}, Reach: []string{"C06.dup.end"}},
-			{Harness: "HarnessC06Loss", ArgSets: [][]int64{{1}, {2}, {3}}, Reach: []string{"C06.loss.end"}},
+			{Harness: "HarnessC06Loss", ArgSets: [][]int64{{1, 0}, {2, 0}, {3, 0}, {1, 1}, {1, 2}}, Reach: []string{"C06.loss.end"}},
 			{Harness: "HarnessC06Acc", ArgSets: acc, Reach: []string{"C06.acc.end"}},
 		}
 	}
@@ -329,7 +329,7 @@ func propTable() map[string]PropSpec {
 			{Harness: "HarnessC07Pool", ArgSets: pool, Reach: []string{"C07.pool.end"}},
 			{Harness: "HarnessC07EOF", Reach: []string{"C07.eof.end"}},
 			{Harness: "HarnessC07Data", ArgSets: [][]int64{{0}, {10}, {37}, {2000}}, Reach: []string{"C07.data.end"}, Asserts: []string{"C07."}},
-			{Harness: "HarnessC07Garbage", Reach: []string{"C07.garbage.end"}},
+			{Harness: "HarnessC07Garbage", ArgSets: [][]int64{{0x101}, {0xff}, {1}}, Reach: []string{"C07.garbage.end"}},
 			{Harness: "HarnessC02Mixed", ArgSets: [][]int64{{0}}, Reach: []string{"C02.mixed.end"}},
 		}
 	}
